@@ -13,7 +13,8 @@
 //        perfect network, MTU swept over [mtuLo, mtuHi]); same monitor; the event log of the first <ntraces> runs is written
 //        for validation by TLC against TunAbs (TunAbsTrace.tla).
 //   tun directed <report.ndjson>
-//        the directed cases: known findings F15, F31, F32, id wrap-around at 2^32 / 2^24, the id-collision hole of the design.
+//        the directed cases: known finding F15, the inputs of the repaired findings F31 and F32 (ordinary judged cases now), id
+//        wrap-around at 2^32 / 2^24, the id-collision hole of the design.
 //
 // Bytes of Message n of sender s: Pat(s, n, i) - at every position different for every (s, n), and position dependent - so
 // any mis-assembly is visible.  Slave kinds: "exact" (a raw-data style gateway of this harness: payload = the bytes, any size
@@ -260,7 +261,7 @@ struct World
          const std::string & p = txio[s]->outq[i];
          if (mini)
          {
-            // F32 predicate: this packet was held (an earlier Write() of it returned 0) and its level byte disagrees with its payload
+            // (repaired) F32: was this packet held (an earlier Write() of it returned 0) and does its level byte disagree with its payload?
             AccountMiniPacket(s, p, (i == 0)&&(!heldLevel[s].empty()));
             if (LevelByte(p) != 0) nCompressed++;
             heldLevel[s].clear();
@@ -302,11 +303,11 @@ struct World
       {
          while((packedUpTo[s] < sent[s].size())&&(!sent[s][packedUpTo[s]].due)) packedUpTo[s]++;    // the sender drops what can never fit
          if (packedUpTo[s] >= sent[s].size()) break;
-         if (garbledNow) { garbledMsgs.insert(std::make_pair(s, sent[s][packedUpTo[s]].n)); Excused e; e.s = s; e.n = sent[s][packedUpTo[s]].n; e.why = "F32"; excuses.push_back(e); }
+         if (garbledNow) garbledMsgs.insert(std::make_pair(s, sent[s][packedUpTo[s]].n));
          packedUpTo[s]++;
       }
    }
-   // tunnel: F31 predicate evaluated on the packet just written
+   // tunnel: the circumstances of (repaired) F31 evaluated on the packet just written
    void AccountTunPacket(int s, const std::string & p, uint32 idOfFirst)
    {
       size_t o = 0; bool over = false;
@@ -314,7 +315,7 @@ struct World
       {
          const uint32 id = Word(p, o + 8), chunk = Word(p, o + 16), tot = Word(p, o + 20);
          const int n = (int) (uint32) (id - idOfFirst) + 1;
-         if ((over)&&(tot <= maxIn)&&(n >= 1)&&(n <= (int) sent[s].size())&&(excusedSet.insert(std::make_pair(s, n)).second)) { Excused e; e.s = s; e.n = n; e.why = "F31"; excuses.push_back(e); }
+         if ((over)&&(tot <= maxIn)&&(n >= 1)&&(n <= (int) sent[s].size())) excusedSet.insert(std::make_pair(s, n));   // diagnosis only
          if (tot > maxIn) over = true;
          o += TUN_H + chunk;
       }
@@ -385,7 +386,7 @@ struct World
       for (size_t i=0; (i<r.size())&&(i<8); i++) s += " [sender " + I(r[i][0]) + " msg " + I(r[i][1]) + " offset " + I(r[i][2]) + " len " + I(r[i][3]) + "]";
       return s;
    }
-   // F31 predicate: a fragment of Message (s, n) follows, in the same packet, a fragment of a Message larger than the receiver's limit
+   // the circumstances of (repaired) F31: a fragment of Message (s, n) follows, in the same packet, a fragment of a Message larger than the receiver's limit
    bool Collateral(int s, int n, uint32 idOfFirst) const
    {
       if (mini) return false;
@@ -402,7 +403,7 @@ struct World
       }
       return false;
    }
-   // F32 predicate: Message (s, n) travelled in a packet that was held and whose level byte disagrees with its payload
+   // the circumstances of (repaired) F32: Message (s, n) travelled in a packet that was held and whose level byte disagrees with its payload
    bool InGarbled(int s, int n) const
    {
       // chunks carry no number: locate the Message by counting the chunks of the packets before (garbled packets: by size bookkeeping of the harness)
@@ -428,10 +429,9 @@ struct World
    // Equal Messages (e.g. two empty ones) are interchangeable, so this is a sequence alignment, not a greedy scan.
    const char * Excuse(const SentMsg & m, uint32 idOfFirst) const
    {
+      (void) idOfFirst;
       if (!m.due) return "limits";
-      if (Collateral(m.s, m.n, idOfFirst)) return "F31";
-      if (InGarbled(m.s, m.n)) return "F32";
-      if ((slave != SL_NONE)&&(m.total > SLAVE_LIMIT)) return "F15";
+      if ((slave != SL_NONE)&&(m.total > SLAVE_LIMIT)) return "F15";     // the only open known finding of this property
       return NULL;
    }
    void Clause2(const std::vector<uint32> & idOfFirst)
@@ -460,16 +460,20 @@ struct World
             {
                if ((ii < NG)&&(g[ii]->key == m[jj].key)&&(ok[jj + 1][ii + 1])) {ii++; continue;}
                const std::string e = ex[jj];
-               if (e == "F31") K("F31: Message " + I(m[jj].n) + " of sender " + I(s) + " (" + I(m[jj].total) + " bytes, within the limit " + I(maxIn) + ") was lost on a perfect network: a fragment of it follows a fragment of an over-limit Message in the same packet");
-               else if (e == "F32") K("F32: Message " + I(m[jj].n) + " of sender " + I(s) + " was lost on a perfect network: its packet was held (Write() returned 0) and its level byte disagrees with its payload");
-               else if (e == "F15") K("F15: Message " + I(m[jj].n) + " of sender " + I(s) + " (" + I(m[jj].total) + " slave-encoded bytes > 1168) was lost on a perfect network");
+               if (e == "F15") K("F15: Message " + I(m[jj].n) + " of sender " + I(s) + " (" + I(m[jj].total) + " slave-encoded bytes > 1168) was lost on a perfect network");
             }
             continue;
          }
          // diagnosis: the longest prefix that can be explained
          size_t jj = 0, ii = 0;
          while(jj < NS) { if ((ii < NG)&&(g[ii]->key == m[jj].key)) {ii++; jj++;} else if (ex[jj]) jj++; else break; }
-         if (jj < NS) V("perfect network: Message " + I(m[jj].n) + " of sender " + I(s) + " (" + I(m[jj].total) + " bytes, fits the limits) was not handed over in its turn (" + I((int64_t) NG) + " Messages from that source arrived, " + I((int64_t) NS) + " were sent)");
+         if (jj < NS)
+         {
+            std::string why;
+            if (Collateral(s, m[jj].n, idOfFirst[s])) why = " [a fragment of it follows a fragment of an over-limit Message in the same packet: the circumstances of repaired finding F31]";
+            else if (InGarbled(s, m[jj].n)) why = " [its packet was held because Write() returned 0 and its compression-level byte disagrees with its payload: the circumstances of repaired finding F32]";
+            V("perfect network: Message " + I(m[jj].n) + " of sender " + I(s) + " (" + I(m[jj].total) + " bytes, fits the limits) was not handed over in its turn (" + I((int64_t) NG) + " Messages from that source arrived, " + I((int64_t) NS) + " were sent)" + why);
+         }
          else V("perfect network: source " + I(s) + " delivered more / other Messages than were sent, in order: extra Message #" + I((int64_t) ii + 1) + " of " + I((int64_t) NG) + ": " + Describe(g[ii]->key));
          return;
       }
@@ -948,14 +952,14 @@ static int Directed(const char * out)
       PerfectRun(w, f);
       Case(fo, "no-slave-large", w, "no slave, MTU 1400, sizes 600, 1200, 5000 on a perfect network", false);
    }
-   // F31: a Message over the receiver's limit takes the Messages that follow it in its packet with it
+   // the input of repaired finding F31: a Message over the receiver's limit must not take the Messages that follow it in its packet with it
    {
       World w(false, SL_RAW, 1000, 1, 100); std::vector<uint32> f(2, 0);
       (void) w.Send(1, 150); (void) w.Send(1, 10); (void) w.Send(1, 20);
       PerfectRun(w, f);
-      Case(fo, "F31", w, "slave RawDataMessageIOGateway, MTU 1000, receiver limit 100, sizes 150, 10, 20 in one packet on a perfect network", !w.known.empty());
+      Case(fo, "F31", w, "slave RawDataMessageIOGateway, MTU 1000, receiver limit 100, sizes 150, 10, 20 in one packet on a perfect network", !w.violations.empty());
    }
-   // F32: the compression level is changed while a packet is held
+   // the inputs of repaired finding F32: the compression level is changed while a packet is held; deflating starts to help while a packet is held
    for (int dir=0; dir<2; dir++)
    {
       World w(true, SL_RAW, 1000, 1, MUSCLE_NO_LIMIT); w.comp = true; std::vector<uint32> f(2, 0);
@@ -964,7 +968,7 @@ static int Directed(const char * out)
       (void) w.Out(1, 0, dir ? 0 : 6);
       for (size_t k=0; k<w.net[1].size(); k++) (void) w.Deliver(1, (int) k + 1);
       w.Clause2(f);
-      Case(fo, dir ? "F32-b" : "F32-a", w, dir ? "mini tunnel, level 6 while the held packet was begun, 0 when it was written" : "mini tunnel, level 0 while the held packet was begun, 6 when it was written", !w.known.empty());
+      Case(fo, dir ? "F32-b" : "F32-a", w, dir ? "mini tunnel, level 6 while the held packet was begun, 0 when it was written" : "mini tunnel, level 0 while the held packet was begun, 6 when it was written", !w.violations.empty());
    }
    // message-id wrap-around at 2^32 (tunnel) and packet-id wrap-around at 2^24 (mini tunnel), with compression on (the id shares a word with the level)
    {
